@@ -4,3 +4,7 @@ import envhooks_common
 
 def run(ctx):
     envhooks_common.run_family(ctx, "C08")
+
+
+def replay(ctx, obj):
+    envhooks_common.replay_family(ctx, "C08", obj)
